@@ -456,6 +456,11 @@ pub fn glue_string(e: &EnumSpec, name: &str, inst: &str, src: &mut Src, _prop: &
         src.push("    fn detailed(&self) -> Option<Option<&'static str>> { Some(strum::EnumMessage::get_detailed_message(self)) }");
         src.push("    fn documentation(&self) -> Option<Option<&'static str>> { Some(strum::EnumMessage::get_documentation(self)) }");
     }
+    if e.derives("EnumProperty") {
+        src.push("    fn get_str(&self, k: &str) -> Option<Option<&'static str>> { Some(strum::EnumProperty::get_str(self, k)) }");
+        src.push("    fn get_int(&self, k: &str) -> Option<Option<i64>> { Some(strum::EnumProperty::get_int(self, k)) }");
+        src.push("    fn get_bool(&self, k: &str) -> Option<Option<bool>> { Some(strum::EnumProperty::get_bool(self, k)) }");
+    }
     // inner field of default / transparent variants (hand-written match)
     let single: Vec<&VariantSpec> = e.variants.iter().filter(|v| (v.transparent() || v.is_default()) && v.fields.len() == 1).collect();
     if !single.is_empty() {
@@ -677,6 +682,204 @@ pub fn module_repr(e: &EnumSpec, o: &ModOpts) -> ModuleSrc {
         src.push("        v }");
     }
     src.push("}");
+    src.push(&format!("pub fn run(ctx: &mut vrt::Ctx) {{ {}::<{}>(ctx) }}", o.run_fn, ty));
+    src.push("}");
+    ModuleSrc { enum_name: e.name.clone(), src }
+}
+
+// ---------------------------------------------------------------------------------------------
+// shape family (EnumIs / EnumTryAs)
+
+pub fn module_shape(e: &EnumSpec, o: &ModOpts) -> ModuleSrc {
+    let mut src = Src::default();
+    src.push(&format!("pub mod m_{} {{", e.name.to_lowercase()));
+    let name = e.name.clone();
+    let eo = enum_opts(e, &name);
+    src.push(&enum_def(e, &eo));
+    let g = generics(e, eo.t_bound, eo.t_inst);
+    src.push(&glue_base(e, &name, &g.inst));
+    let ty = format!("{}{}", name, g.inst);
+    src.push(&format!("impl vrt::shapefam::ShGlue for {} {{", ty));
+    let meth = |v: &VariantSpec| crate::model::snake_method(&v.ident);
+    // is_*
+    src.push("    fn is(&self, j: usize) -> Option<bool> { match j {");
+    for (j, v) in e.variants.iter().enumerate() {
+        if !v.disabled() {
+            src.tagged(&format!("        {} => Some(self.is_{}()),", j, meth(v)), "C13:is-method-name");
+        }
+    }
+    src.push("        _ => None } }");
+    let tuples: Vec<(usize, &VariantSpec)> = e.variants.iter().enumerate().filter(|(_, v)| v.kind == Kind::Tuple && !v.disabled()).collect();
+    let tup_pat = |k: usize| -> String {
+        match k {
+            0 => "_u".to_string(),
+            1 => "a0".to_string(),
+            _ => format!("({})", (0..k).map(|i| format!("a{}", i)).collect::<Vec<_>>().join(", ")),
+        }
+    };
+    src.push("    fn try_as(self, j: usize) -> Option<Option<Vec<String>>> { match j {");
+    for (j, v) in &tuples {
+        let k = v.fields.len();
+        let rs: Vec<String> = (0..k).map(|i| format!("vrt::R::r(&a{})", i)).collect();
+        src.tagged(&format!("        {} => Some(self.try_as_{}().map(|{}| vec![{}])),", j, meth(v), tup_pat(k), rs.join(", ")), "C13:try_as-method");
+    }
+    src.push("        _ => None } }");
+    src.push("    fn try_as_ref(&self, j: usize) -> Option<Option<(Vec<String>, Vec<usize>)>> { match j {");
+    for (j, v) in &tuples {
+        let k = v.fields.len();
+        let rs: Vec<String> = (0..k).map(|i| format!("vrt::R::r(a{})", i)).collect();
+        let ads: Vec<String> = (0..k).map(|i| format!("a{} as *const _ as *const u8 as usize", i)).collect();
+        src.tagged(
+            &format!("        {} => Some(self.try_as_{}_ref().map(|{}| (vec![{}], vec![{}]))),", j, meth(v), tup_pat(k), rs.join(", "), ads.join(", ")),
+            "C13:try_as_ref-method",
+        );
+    }
+    src.push("        _ => None } }");
+    src.push("    fn try_as_mut_set(&mut self, j: usize, d: &mut vrt::Draw) -> Option<Option<Vec<String>>> { match j {");
+    for (j, v) in &tuples {
+        let k = v.fields.len();
+        let sets: Vec<String> = (0..k).map(|i| format!("*a{} = vrt::Mk::mk(d);", i)).collect();
+        let rs: Vec<String> = (0..k).map(|i| format!("vrt::R::r(&*a{})", i)).collect();
+        src.tagged(
+            &format!("        {} => Some(self.try_as_{}_mut().map(|{}| {{ {} vec![{}] }})),", j, meth(v), tup_pat(k), sets.join(" "), rs.join(", ")),
+            "C13:try_as_mut-method",
+        );
+    }
+    src.push("        _ => None } }");
+    src.push("    fn field_addrs(&self) -> Vec<usize> { match self {");
+    for v in &e.variants {
+        let ads: Vec<String> = (0..v.fields.len()).map(|i| format!("f{} as *const _ as *const u8 as usize", i)).collect();
+        src.push(&format!("        {} => vec![{}],", bind_pat(&name, v), ads.join(", ")));
+    }
+    if e.variants.is_empty() {
+        src.push("        _ => unreachable!(),");
+    }
+    src.push("    } }");
+    src.push("}");
+    src.push(&format!("pub fn run(ctx: &mut vrt::Ctx) {{ {}::<{}>(ctx) }}", o.run_fn, ty));
+    src.push("}");
+    ModuleSrc { enum_name: e.name.clone(), src }
+}
+
+// ---------------------------------------------------------------------------------------------
+// table family (EnumTable)
+
+pub fn module_table(e: &EnumSpec, o: &ModOpts) -> ModuleSrc {
+    let mut src = Src::default();
+    src.push(&format!("pub mod m_{} {{", e.name.to_lowercase()));
+    let name = e.name.clone();
+    let mut eo = enum_opts(e, &name);
+    let extra: &[&str] = &["Clone", "Copy"];
+    eo.extra_std_derives = extra;
+    src.push(&enum_def(e, &eo));
+    src.push(&glue_base(e, &name, ""));
+    let n = e.enabled_indices().len();
+    let tb = format!("{}Table", name);
+    src.push(&format!("impl vrt::tablefam::TGlue for {} {{", name));
+    src.tagged(&format!("    type Tb = {}<i64>;", tb), "C10:table-type");
+    let args = |p: &str| (0..n).map(|i| format!("{}[{}]", p, i)).collect::<Vec<_>>().join(", ");
+    src.tagged(&format!("    fn new_seq(vals: &[i64]) -> Self::Tb {{ {}::new({}) }}", tb, args("vals")), "C10:new");
+    src.tagged(&format!("    fn filled(x: i64) -> Self::Tb {{ {}::filled(x) }}", tb), "C10:filled");
+    src.tagged(&format!("    fn from_closure(f: &dyn Fn(usize) -> i64) -> Self::Tb {{ {}::from_closure(|k: {}| f(vrt::Glue::idx(&k))) }}", tb, name), "C10:from_closure");
+    src.tagged(&format!("    fn transform(t: &Self::Tb, f: &dyn Fn(usize, i64) -> i64) -> Self::Tb {{ t.transform(|k: {}, v: &i64| f(vrt::Glue::idx(&k), *v)) }}", name), "C10:transform");
+    src.tagged("    fn get(t: &Self::Tb, k: usize) -> i64 { t[<Self as vrt::Glue>::make(k, &mut vrt::Draw::new(vec![]))] }", "C10:index");
+    src.tagged("    fn set(t: &mut Self::Tb, k: usize, v: i64) { t[<Self as vrt::Glue>::make(k, &mut vrt::Draw::new(vec![]))] = v; }", "C10:index_mut");
+    src.tagged(&format!("    fn all(opts: &[Option<i64>]) -> Option<Self::Tb> {{ {}::new({}).all() }}", tb, args("opts")), "C10:all");
+    src.tagged(&format!("    fn all_ok(rs: &[Result<i64, i64>]) -> Result<Self::Tb, i64> {{ {}::new({}).all_ok() }}", tb, args("rs")), "C10:all_ok");
+    src.push("}");
+    src.push(&format!("pub fn run(ctx: &mut vrt::Ctx) {{ {}::<{}>(ctx) }}", o.run_fn, name));
+    src.push("}");
+    ModuleSrc { enum_name: e.name.clone(), src }
+}
+
+// ---------------------------------------------------------------------------------------------
+// discriminants family (EnumDiscriminants)
+
+pub fn module_disc(e: &EnumSpec, o: &ModOpts) -> ModuleSrc {
+    let mut src = Src::default();
+    src.push(&format!("pub mod m_{} {{", e.name.to_lowercase()));
+    let name = e.name.clone();
+    let opts = e.disc_opts.clone().unwrap_or_default();
+    let dname = opts.name.clone().unwrap_or_else(|| format!("{}Discriminants", name));
+    // private discriminant enum: the glue has to live next to it
+    let private = opts.vis.as_deref() == Some("");
+    let eo = enum_opts(e, &name);
+    let g = generics(e, eo.t_bound, eo.t_inst);
+    if !private {
+        src.push("pub mod def {");
+    }
+    src.push(&enum_def(e, &eo));
+    if !private {
+        src.push("}");
+        src.push(&format!("pub use self::def::{};", name));
+        src.tagged(&format!("use self::def::{} as D;", dname), "C09:name-and-visibility");
+    } else {
+        src.tagged(&format!("use self::{} as D;", dname), "C09:name-and-visibility");
+    }
+    src.push(&glue_base(e, &name, &g.inst));
+    let ty = format!("{}{}", name, g.inst);
+    let r = e.repr_int.clone().unwrap_or_else(|| "isize".to_string());
+    // exhaustive, wildcard-free match with exactly the declared names: same variant set
+    let arms: Vec<String> = e.variants.iter().enumerate().map(|(i, v)| format!("D::{} => {}", v.ident, i)).collect();
+    if e.variants.is_empty() {
+        src.tagged("fn d_idx(d: &D) -> usize { match *d {} }", "C09:variant-set");
+    } else {
+        src.tagged(&format!("fn d_idx(d: &D) -> usize {{ match d {{ {} }} }}", arms.join(", ")), "C09:variant-set");
+    }
+    src.tagged("fn assert_base<X: Copy + Clone + ::core::fmt::Debug + PartialEq + Eq>() {} fn _s() { assert_base::<D>(); }", "C09:base-derives");
+    src.push(&format!("impl vrt::discfam::DGlue for {} {{", ty));
+    src.tagged("    fn d_of_ref(&self) -> usize { d_idx(&<D as ::core::convert::From<&Self>>::from(self)) }", "C09:from-ref");
+    src.tagged("    fn d_of_val(self) -> usize { d_idx(&<D as ::core::convert::From<Self>>::from(self)) }", "C09:from-value");
+    let has_trait = matches!(opts.vis.as_deref(), None | Some("pub"));
+    if has_trait {
+        src.tagged("    fn d_of_trait(&self) -> Option<usize> { let d: D = strum::IntoDiscriminant::discriminant(self); Some(d_idx(&d)) }", "C09:into-discriminant");
+    }
+    src.push("    fn d_int(j: usize) -> i128 { match j {");
+    for (i, v) in e.variants.iter().enumerate() {
+        src.tagged(&format!("        {} => (D::{} as {}) as i128,", i, v.ident, r), "C09:cast");
+    }
+    src.push("        _ => panic!() } }");
+    let fieldless = e.variants.iter().all(|v| v.kind == Kind::Unit);
+    if fieldless && !e.has_generics() && !e.variants.is_empty() {
+        src.push("    fn e_int(&self) -> Option<i128> { Some(match self {");
+        for v in &e.variants {
+            src.push(&format!("        {n}::{v} => ({n}::{v} as {r}) as i128,", n = name, v = v.ident, r = r));
+        }
+        src.push("    }) }");
+    } else if e.repr_int.is_some() && !e.variants.is_empty() {
+        src.push(&format!("    fn e_int(&self) -> Option<i128> {{ Some(unsafe {{ *(self as *const Self as *const {}) }} as i128) }}", r));
+    }
+    if e.repr_int.is_some() && !e.repr.as_deref().unwrap_or("").contains("align") {
+        src.push(&format!("    fn d_sizes() -> Option<(usize, usize)> {{ Some((::core::mem::size_of::<D>(), ::core::mem::size_of::<{}>())) }}", r));
+    }
+    let has = |d: &str| opts.derives.iter().any(|x| x == d || x.ends_with(&format!("::{}", d)));
+    if has("EnumIter") {
+        src.tagged("    fn d_iter() -> Option<Vec<usize>> { Some(<D as strum::IntoEnumIterator>::iter().map(|d| d_idx(&d)).collect()) }", "C09:derive-EnumIter");
+    }
+    if has("EnumString") {
+        src.tagged("    fn d_from_str(s: &str) -> Option<Option<usize>> { Some(<D as ::core::str::FromStr>::from_str(s).ok().map(|d| d_idx(&d))) }", "C09:derive-EnumString");
+    }
+    if has("Display") {
+        src.push("    fn d_display(j: usize) -> Option<String> { Some(match j {");
+        for (i, v) in e.variants.iter().enumerate() {
+            src.tagged(&format!("        {} => format!(\"{{}}\", D::{}),", i, v.ident), "C09:derive-Display");
+        }
+        src.push("        _ => panic!() }) }");
+    }
+    if has("VariantNames") {
+        src.tagged("    fn d_names() -> Option<Vec<String>> { Some(<D as strum::VariantNames>::VARIANTS.iter().map(|s| s.to_string()).collect()) }", "C09:derive-VariantNames");
+    }
+    if has("FromRepr") {
+        // FromRepr only recognises a lone integer repr; with `align(..), u8` it takes usize (not C09's business)
+        let rr = if e.repr.as_deref().unwrap_or("").contains("align") { "usize".to_string() } else { e.repr_int.clone().unwrap_or_else(|| "usize".to_string()) };
+        src.tagged(&format!("    fn d_from_repr(d: i128) -> Option<Option<usize>> {{ let x: {} = ::core::convert::TryFrom::try_from(d).ok()?; Some(D::from_repr(x).map(|d| d_idx(&d))) }}", rr), "C09:derive-FromRepr");
+    }
+    src.push("}");
+    let std_ds: Vec<&str> = ["Hash", "PartialOrd", "Ord"].iter().copied().filter(|d| has(d)).collect();
+    if !std_ds.is_empty() {
+        let bounds: Vec<String> = std_ds.iter().map(|d| if *d == "Hash" { "::core::hash::Hash".to_string() } else { d.to_string() }).collect();
+        src.tagged(&format!("fn assert_req<X: {}>() {{}} fn _r() {{ assert_req::<D>(); }}", bounds.join(" + ")), "C09:derive-std");
+    }
     src.push(&format!("pub fn run(ctx: &mut vrt::Ctx) {{ {}::<{}>(ctx) }}", o.run_fn, ty));
     src.push("}");
     ModuleSrc { enum_name: e.name.clone(), src }
